@@ -35,6 +35,7 @@ RULE = ("5 integral defuzzifiers x resolution {1,2,3,5,10,100, random <= 100, in
         "is exact), all 7x9 implication/aggregation pairs, plateaus, equal maxima, symmetric sets, gaps. Family 'general': "
         "decimal/random parameters, also Gaussian/Bell/Sigmoid/Cosine/Spike/product terms, continuous norms only. Arc and "
         "SemiEllipse are left to C03 (F1/F2). A case is non-trivial when some result is finite; distinct = distinct input")
+RULE += (" Stream `midpoints` (fv/streams/midpoints.py): Op.midpoints at resolutions 1..5 (and 7, 16, 100) on reversed, empty, infinite and NaN ranges against Op.Integral.midpoints.")
 ASSUMPTIONS = ["the model evaluates the memberships at the float sample points the implementation computed (Op.midpoints is "
                "compared separately against the exact midpoints)",
                "numbers: 1e-9 abs+rel; tie-sensitive results (Bisector arg-min set, max-plateau): the implementation may "
